@@ -165,10 +165,11 @@ def check_case(cfg):
             # the subgroup approximates its own (semi-total) derivatives
             if not any(cc['path'].startswith('G.') for cc in spec['comps']):
                 return None, 'approx_sub needs a subgroup'
-            if cfg.get('nl') in ('Newton', 'Broyden'):
+            if cfg.get('nl') in ('Newton', 'Broyden') and not spec['solver_group'].startswith('G'):
                 return None, 'approx_sub under a root Newton/Broyden solver not generated'
             m = cfg['approx_sub']
-            if m == 'cs' and spec['cyclic'] and spec['solver_group'].startswith('G'):
+            if m == 'cs' and spec['cyclic'] and spec['solver_group'].startswith('G') and \
+                    spec['groups'][spec['solver_group']].get('nl') != 'Newton':
                 # the imaginary part of a complex step through an iterative nonlinear solver is only
                 # converged as far as the solver's real-norm test happens to take it (1e-5 relative
                 # error on the unscaled model already): an approximation-accuracy question, not C08
